@@ -484,6 +484,33 @@ def Plain (isPrint : Nat → Bool) (d : Bytes) : Prop := domText isPrint d = Quo
 
 def NoStar (d : Bytes) : Prop := ∀ rest, d ≠ 0x2a :: 0x2e :: rest
 
+/-- `putservertext` leaves the quoted server name as it is: a `Plain` name with a dot, a single
+label with its trailing dot (`c.`), the root `.` -/
+def PlainServer (isPrint : Nat → Bool) (d : Bytes) : Prop := serverText isPrint d = Quote.bquote isPrint d
+
+/-- `putmapdomtext` leaves the quoted map name as it is: a `Plain` name, or `*.` in front of one
+(the catch-all map `*.` included) -/
+def PlainMap (isPrint : Nat → Bool) (d : Bytes) : Prop := mapDomText isPrint d = Quote.bquote isPrint d
+
+/-- the parameter list is written to a text without a comma that reads back as the list: the
+`svcb.ParamList` text codec is C18's subject and is taken as given here -/
+def ParamsOK (ps : List Svcb.Param) : Prop :=
+  ∃ t, Svcb.toText ps = .ok t ∧ Svcb.fromText t = .ok ps ∧ (0x2c : UInt8) ∉ t
+
+/-- quoting keeps a leading `*.` (true of every `isPrint` that holds `*` and `.` printable, as Go's
+does): the `*.` the parser drops from a `B` / `H` target is then seen in the text and written back -/
+def StarKept (isPrint : Nat → Bool) (d : Bytes) : Prop :=
+  startsStar d = true → startsStar (Quote.bquote isPrint d) = true
+
+theorem noStar_of_startsStar {d : Bytes} (h : startsStar d = false) : NoStar d := by
+  intro rest e
+  subst e
+  simp [startsStar] at h
+
+theorem eq_bquote_no_sep {isPrint : Nat → Bool} {t d : Bytes} (h : t = Quote.bquote isPrint d) :
+    (0x2c : UInt8) ∉ t ∧ (0x3a : UInt8) ∉ t := by
+  rw [h]; exact Props.C17.bquote_no_comma_colon isPrint d
+
 theorem ipOK_none : IpOK none := by
   constructor
   · rfl
@@ -502,6 +529,12 @@ theorem wild_no_sep (isPrint : Nat → Bool) (wild : Bool) (d : Bytes) :
 theorem unq_plain {isPrint : Nat → Bool} {d : Bytes} (h : Plain isPrint d) :
     unq (domText isPrint d) = d := by rw [h, unq_bquote]
 
+theorem unq_plainServer {isPrint : Nat → Bool} {d : Bytes} (h : PlainServer isPrint d) :
+    unq (serverText isPrint d) = d := by rw [h, unq_bquote]
+
+theorem unq_plainMap {isPrint : Nat → Bool} {d : Bytes} (h : PlainMap isPrint d) :
+    unq (mapDomText isPrint d) = d := by rw [h, unq_bquote]
+
 macro "fld_simp" : tactic => `(tactic|
   simp only [fld_pad, List.getD, List.getElem?_cons_zero, List.getElem?_cons_succ, Option.getD_some,
     Option.getD_none, List.getElem?_nil, List.length_cons, List.length_nil])
@@ -516,21 +549,21 @@ theorem nil_no_sep : (0x2c : UInt8) ∉ ([] : Bytes) := by simp
 def WF (isPrint : Nat → Bool) (cfg : Cfg) : Record → Prop
   | .soa dom ns adm ser ref ret exp min ttl lo =>
     Plain isPrint dom ∧ Plain isPrint ns ∧ Plain isPrint adm ∧ ser < 2 ^ 32 ∧ ref < 2 ^ 32 ∧
-    ret < 2 ^ 32 ∧ exp < 2 ^ 32 ∧ min < 2 ^ 32 ∧ ttl < 2 ^ 32 ∧ LocOK lo ∧ (ser = 0 → cfg.serial = 0)
+    ret < 2 ^ 32 ∧ exp < 2 ^ 32 ∧ min < 2 ^ 32 ∧ ttl < 2 ^ 32 ∧ LocOK lo
   | .net lo ip ones lmap =>
     LocOK lo ∧ parseIPNet (ipnetText ip ones) = some (ip, ones) ∧ (0x2c : UInt8) ∉ ipnetText ip ones ∧
     lmap.length = 2 ∧ (cfg.ranger = true → lo.isSome = true)
   | .dot dom ip ns ttl lo | .ns dom ip ns ttl lo =>
-    Plain isPrint dom ∧ IpOK ip ∧ Plain isPrint ns ∧ ns.contains 0x2e = true ∧ ttl < 2 ^ 32 ∧ LocOK lo
+    Plain isPrint dom ∧ IpOK ip ∧ PlainServer isPrint ns ∧ ns.contains 0x2e = true ∧ ttl < 2 ^ 32 ∧ LocOK lo
   | .addr dom wild ip ttl lo weight =>
     Plain isPrint dom ∧ (wild = false → NoStar dom) ∧ IpOK ip ∧ ttl < 2 ^ 32 ∧ LocOK lo ∧ weight < 2 ^ 32
   | .paddr dom wild ip ttl lo =>
     Plain isPrint dom ∧ (wild = false → NoStar dom) ∧ IpOK ip ∧ ttl < 2 ^ 32 ∧ LocOK lo
   | .mx dom ip mx dist ttl lo =>
-    Plain isPrint dom ∧ IpOK ip ∧ Plain isPrint mx ∧ mx.contains 0x2e = true ∧ dist < 2 ^ 32 ∧
+    Plain isPrint dom ∧ IpOK ip ∧ PlainServer isPrint mx ∧ mx.contains 0x2e = true ∧ dist < 2 ^ 32 ∧
     ttl < 2 ^ 32 ∧ LocOK lo
   | .srv dom ip srv port pri weight ttl lo =>
-    Plain isPrint dom ∧ IpOK ip ∧ Plain isPrint srv ∧ srv.contains 0x2e = true ∧ port < 2 ^ 16 ∧
+    Plain isPrint dom ∧ IpOK ip ∧ PlainServer isPrint srv ∧ srv.contains 0x2e = true ∧ port < 2 ^ 16 ∧
     pri < 2 ^ 16 ∧ weight < 2 ^ 16 ∧ ttl < 2 ^ 32 ∧ LocOK lo
   | .cname dom wild cname ttl lo =>
     Plain isPrint dom ∧ (wild = false → NoStar dom) ∧ Plain isPrint cname ∧ ttl < 2 ^ 32 ∧ LocOK lo
@@ -538,11 +571,13 @@ def WF (isPrint : Nat → Bool) (cfg : Cfg) : Record → Prop
   | .txt dom wild _ ttl lo =>
     Plain isPrint dom ∧ (wild = false → NoStar dom) ∧ ttl < 2 ^ 32 ∧ LocOK lo
   | .aux dom rtype _ ttl lo => Plain isPrint dom ∧ rtype < 2 ^ 16 ∧ ttl < 2 ^ 32 ∧ LocOK lo
-  | .ipmap dom lmap | .csmap dom lmap => Plain isPrint dom ∧ lmap.length = 2
+  | .ipmap dom lmap | .csmap dom lmap => PlainMap isPrint dom ∧ lmap.length = 2
   | .rangepoint lmap ip maskLen loc =>
     lmap.length = 2 ∧ parseIP (Svcb.ipString ip) = some ip ∧ (0x2c : UInt8) ∉ Svcb.ipString ip ∧
     maskLen < 256 ∧ LocOK loc ∧ (loc = none → maskLen = 0)
-  | .svcb .. => False      -- SVCB / HTTPS lines: correspondence only (parameter lists are C18's)
+  | .svcb _ dom wild tgt ttl lo prio params =>
+    Plain isPrint dom ∧ (wild = false → NoStar dom) ∧ Plain isPrint tgt ∧ StarKept isPrint tgt ∧
+    ttl < 2 ^ 32 ∧ LocOK lo ∧ prio < 2 ^ 16 ∧ ParamsOK params
 
 theorem pm_addr (isPrint : Nat → Bool) (cfg : Cfg) (dom : Bytes) (wild : Bool)
     (ip : Option IP) (ttl : Nat) (lo : Option Bytes) (weight : Nat)
@@ -658,27 +693,27 @@ theorem pm_aux (isPrint : Nat → Bool) (cfg : Cfg) (dom : Bytes) (rtype : Nat) 
 
 theorem pm_ipmap (isPrint : Nat → Bool) (cfg : Cfg) (dom lmap : Bytes)
     (h : WF isPrint cfg (.ipmap dom lmap)) :
-    parseRecord cfg (0x4d :: joinSep [domText isPrint dom, lmapText lmap]) = .ok (.ipmap dom lmap) := by
+    parseRecord cfg (0x4d :: joinSep [mapDomText isPrint dom, lmapText lmap]) = .ok (.ipmap dom lmap) := by
   obtain ⟨hd, hl⟩ := h
-  have hds := plain_no_sep hd
-  have hf := fields_joinSep 0x4d (domText isPrint dom) (lmapText lmap) [] (by simp)
+  have hds := eq_bquote_no_sep hd
+  have hf := fields_joinSep 0x4d (mapDomText isPrint dom) (lmapText lmap) [] (by simp)
     (by mem_split; exact ⟨hds.1, (lmapText_no_sep _).1⟩) hds.2
   cl_simp
   rw [hf]
   fld_simp
-  simp only [unq_plain hd, getlmap_lmapText lmap hl]
+  simp only [unq_plainMap hd, getlmap_lmapText lmap hl]
 
 theorem pm_csmap (isPrint : Nat → Bool) (cfg : Cfg) (dom lmap : Bytes)
     (h : WF isPrint cfg (.csmap dom lmap)) :
-    parseRecord cfg (0x38 :: joinSep [domText isPrint dom, lmapText lmap]) = .ok (.csmap dom lmap) := by
+    parseRecord cfg (0x38 :: joinSep [mapDomText isPrint dom, lmapText lmap]) = .ok (.csmap dom lmap) := by
   obtain ⟨hd, hl⟩ := h
-  have hds := plain_no_sep hd
-  have hf := fields_joinSep 0x38 (domText isPrint dom) (lmapText lmap) [] (by simp)
+  have hds := eq_bquote_no_sep hd
+  have hf := fields_joinSep 0x38 (mapDomText isPrint dom) (lmapText lmap) [] (by simp)
     (by mem_split; exact ⟨hds.1, (lmapText_no_sep _).1⟩) hds.2
   cl_simp
   rw [hf]
   fld_simp
-  simp only [unq_plain hd, getlmap_lmapText lmap hl]
+  simp only [unq_plainMap hd, getlmap_lmapText lmap hl]
 
 theorem expandName_dot (x tag dom : Bytes) (h : x.contains 0x2e = true) : expandName x tag dom = x := by
   unfold expandName; rw [if_pos h]
@@ -686,18 +721,19 @@ theorem expandName_dot (x tag dom : Bytes) (h : x.contains 0x2e = true) : expand
 theorem pm_soa (isPrint : Nat → Bool) (cfg : Cfg) (dom ns adm : Bytes) (ser ref ret exp min ttl : Nat)
     (lo : Option Bytes) (h : WF isPrint cfg (.soa dom ns adm ser ref ret exp min ttl lo)) :
     parseRecord cfg (0x5a :: joinSep [domText isPrint dom, domText isPrint ns, domText isPrint adm,
-      if ser ≠ 0 then decText ser else [], decText ref, decText ret, decText exp, decText min,
+      serialText cfg ser, decText ref, decText ret, decText exp, decText min,
       decText ttl, [], locText lo]) = .ok (.soa dom ns adm ser ref ret exp min ttl lo) := by
-  obtain ⟨hd, hn, ha, hser, href, hret, hexp, hmin, httl, hlo, hs0⟩ := h
+  obtain ⟨hd, hn, ha, hser, href, hret, hexp, hmin, httl, hlo⟩ := h
   have hds := plain_no_sep hd
   have hns := plain_no_sep hn
   have has := plain_no_sep ha
-  have hsf : (0x2c : UInt8) ∉ (if ser ≠ 0 then decText ser else []) := by
+  have hsf : (0x2c : UInt8) ∉ serialText cfg ser := by
+    unfold serialText
     split
     · exact (decText_no_sep _).1
     · simp
   have hf := fields_joinSep 0x5a (domText isPrint dom) (domText isPrint ns)
-    [domText isPrint adm, if ser ≠ 0 then decText ser else [], decText ref, decText ret, decText exp,
+    [domText isPrint adm, serialText cfg ser, decText ref, decText ret, decText exp,
       decText min, decText ttl, [], locText lo] (by simp)
     (by mem_split; exact ⟨hds.1, hns.1, has.1, hsf, (decText_no_sep _).1, (decText_no_sep _).1,
           (decText_no_sep _).1, (decText_no_sep _).1, (decText_no_sep _).1, not_false,
@@ -707,57 +743,59 @@ theorem pm_soa (isPrint : Nat → Bool) (cfg : Cfg) (dom ns adm : Bytes) (ser re
   rw [hf]
   fld_simp
   rw [getloc_locText lo hlo]
-  have hsr : getuint 32 (if ser ≠ 0 then decText ser else []) cfg.serial = ser := by
-    by_cases h0 : ser = 0
-    · rw [if_neg (by simpa using h0), getuint_nil, hs0 h0, h0]
+  have hsr : getuint 32 (serialText cfg ser) cfg.serial = ser := by
+    unfold serialText
+    by_cases h0 : ser ≠ 0 ∨ cfg.serial ≠ 0
     · rw [if_pos h0, getuint_decText 32 ser _ hser]
+    · rw [if_neg h0, getuint_nil]
+      omega
   simp only [unq_plain hd, unq_plain hn, unq_plain ha, hsr, getuint_decText 32 _ _ href,
     getuint_decText 32 _ _ hret, getuint_decText 32 _ _ hexp, getuint_decText 32 _ _ hmin,
     getuint_decText 32 _ _ httl]
 
 theorem pm_ns (isPrint : Nat → Bool) (cfg : Cfg) (dom : Bytes) (ip : Option IP) (ns : Bytes) (ttl : Nat)
     (lo : Option Bytes) (h : WF isPrint cfg (.ns dom ip ns ttl lo)) :
-    parseRecord cfg (0x26 :: joinSep [domText isPrint dom, ipText ip, domText isPrint ns, decText ttl, [],
+    parseRecord cfg (0x26 :: joinSep [domText isPrint dom, ipText ip, serverText isPrint ns, decText ttl, [],
       locText lo]) = .ok (.ns dom ip ns ttl lo) := by
   obtain ⟨hd, hip, hn, hdot, httl, hlo⟩ := h
   have hds := plain_no_sep hd
-  have hns := plain_no_sep hn
+  have hns := eq_bquote_no_sep hn
   have hf := fields_joinSep 0x26 (domText isPrint dom) (ipText ip)
-    [domText isPrint ns, decText ttl, [], locText lo] (by simp)
+    [serverText isPrint ns, decText ttl, [], locText lo] (by simp)
     (by mem_split; exact ⟨hds.1, hip.2, hns.1, (decText_no_sep _).1, not_false, (locText_no_sep _).1⟩)
     hds.2
   cl_simp
   rw [hf]
   fld_simp
   rw [getloc_locText lo hlo]
-  simp only [unq_plain hd, unq_plain hn, expandName_dot _ _ _ hdot, hip.1, getuint_decText 32 _ _ httl]
+  simp only [unq_plain hd, unq_plainServer hn, expandName_dot _ _ _ hdot, hip.1, getuint_decText 32 _ _ httl]
 
 theorem pm_dot (isPrint : Nat → Bool) (cfg : Cfg) (dom : Bytes) (ip : Option IP) (ns : Bytes) (ttl : Nat)
     (lo : Option Bytes) (h : WF isPrint cfg (.dot dom ip ns ttl lo)) :
-    parseRecord cfg (0x2e :: joinSep [domText isPrint dom, ipText ip, domText isPrint ns, decText ttl, [],
+    parseRecord cfg (0x2e :: joinSep [domText isPrint dom, ipText ip, serverText isPrint ns, decText ttl, [],
       locText lo]) = .ok (.dot dom ip ns ttl lo) := by
   obtain ⟨hd, hip, hn, hdot, httl, hlo⟩ := h
   have hds := plain_no_sep hd
-  have hns := plain_no_sep hn
+  have hns := eq_bquote_no_sep hn
   have hf := fields_joinSep 0x2e (domText isPrint dom) (ipText ip)
-    [domText isPrint ns, decText ttl, [], locText lo] (by simp)
+    [serverText isPrint ns, decText ttl, [], locText lo] (by simp)
     (by mem_split; exact ⟨hds.1, hip.2, hns.1, (decText_no_sep _).1, not_false, (locText_no_sep _).1⟩)
     hds.2
   cl_simp
   rw [hf]
   fld_simp
   rw [getloc_locText lo hlo]
-  simp only [unq_plain hd, unq_plain hn, expandName_dot _ _ _ hdot, hip.1, getuint_decText 32 _ _ httl]
+  simp only [unq_plain hd, unq_plainServer hn, expandName_dot _ _ _ hdot, hip.1, getuint_decText 32 _ _ httl]
 
 theorem pm_mx (isPrint : Nat → Bool) (cfg : Cfg) (dom : Bytes) (ip : Option IP) (mx : Bytes)
     (dist ttl : Nat) (lo : Option Bytes) (h : WF isPrint cfg (.mx dom ip mx dist ttl lo)) :
-    parseRecord cfg (0x40 :: joinSep [domText isPrint dom, ipText ip, domText isPrint mx, decText dist,
+    parseRecord cfg (0x40 :: joinSep [domText isPrint dom, ipText ip, serverText isPrint mx, decText dist,
       decText ttl, [], locText lo]) = .ok (.mx dom ip mx dist ttl lo) := by
   obtain ⟨hd, hip, hn, hdot, hdist, httl, hlo⟩ := h
   have hds := plain_no_sep hd
-  have hns := plain_no_sep hn
+  have hns := eq_bquote_no_sep hn
   have hf := fields_joinSep 0x40 (domText isPrint dom) (ipText ip)
-    [domText isPrint mx, decText dist, decText ttl, [], locText lo] (by simp)
+    [serverText isPrint mx, decText dist, decText ttl, [], locText lo] (by simp)
     (by mem_split; exact ⟨hds.1, hip.2, hns.1, (decText_no_sep _).1, (decText_no_sep _).1, not_false,
           (locText_no_sep _).1⟩)
     hds.2
@@ -765,20 +803,20 @@ theorem pm_mx (isPrint : Nat → Bool) (cfg : Cfg) (dom : Bytes) (ip : Option IP
   rw [hf]
   fld_simp
   rw [getloc_locText lo hlo]
-  simp only [unq_plain hd, unq_plain hn, expandName_dot _ _ _ hdot, hip.1, getuint_decText 32 _ _ httl,
+  simp only [unq_plain hd, unq_plainServer hn, expandName_dot _ _ _ hdot, hip.1, getuint_decText 32 _ _ httl,
     getuint_decText 32 _ _ hdist]
 
 theorem pm_srv (isPrint : Nat → Bool) (cfg : Cfg) (dom : Bytes) (ip : Option IP) (srv : Bytes)
     (port pri weight ttl : Nat) (lo : Option Bytes)
     (h : WF isPrint cfg (.srv dom ip srv port pri weight ttl lo)) :
-    parseRecord cfg (0x53 :: joinSep [domText isPrint dom, ipText ip, domText isPrint srv, decText port,
+    parseRecord cfg (0x53 :: joinSep [domText isPrint dom, ipText ip, serverText isPrint srv, decText port,
       decText pri, decText weight, decText ttl, [], locText lo])
       = .ok (.srv dom ip srv port pri weight ttl lo) := by
   obtain ⟨hd, hip, hn, hdot, hport, hpri, hwt, httl, hlo⟩ := h
   have hds := plain_no_sep hd
-  have hns := plain_no_sep hn
+  have hns := eq_bquote_no_sep hn
   have hf := fields_joinSep 0x53 (domText isPrint dom) (ipText ip)
-    [domText isPrint srv, decText port, decText pri, decText weight, decText ttl, [], locText lo] (by simp)
+    [serverText isPrint srv, decText port, decText pri, decText weight, decText ttl, [], locText lo] (by simp)
     (by mem_split; exact ⟨hds.1, hip.2, hns.1, (decText_no_sep _).1, (decText_no_sep _).1,
           (decText_no_sep _).1, (decText_no_sep _).1, not_false, (locText_no_sep _).1⟩)
     hds.2
@@ -786,7 +824,7 @@ theorem pm_srv (isPrint : Nat → Bool) (cfg : Cfg) (dom : Bytes) (ip : Option I
   rw [hf]
   fld_simp
   rw [getloc_locText lo hlo]
-  simp only [unq_plain hd, unq_plain hn, expandName_dot _ _ _ hdot, hip.1, getuint_decText 32 _ _ httl,
+  simp only [unq_plain hd, unq_plainServer hn, expandName_dot _ _ _ hdot, hip.1, getuint_decText 32 _ _ httl,
     getuint_decText 16 _ _ hport, getuint_decText 16 _ _ hpri, getuint_decText 16 _ _ hwt]
 
 theorem pm_net (isPrint : Nat → Bool) (cfg : Cfg) (lo : Option Bytes) (ip : IP) (ones : Nat) (lmap : Bytes)
@@ -808,6 +846,52 @@ theorem pm_net (isPrint : Nat → Bool) (cfg : Cfg) (lo : Option Bytes) (ip : IP
     | none => simp at this
     | some l => simp
   · simp [hrg]
+
+/-- `B` / `H` lines: the `*.` of a wildcard owner is written, and so is the `*.` the parser will
+drop from a target that begins with one -/
+theorem pm_svcb (isPrint : Nat → Bool) (cfg : Cfg) (https : Bool) (dom : Bytes) (wild : Bool) (tgt : Bytes)
+    (ttl : Nat) (lo : Option Bytes) (prio : Nat) (params : List Svcb.Param) (ptxt : Bytes)
+    (hd : Plain isPrint dom) (hw : wild = false → NoStar dom) (ht : Plain isPrint tgt)
+    (hsk : StarKept isPrint tgt) (httl : ttl < 2 ^ 32)
+    (hlo : LocOK lo) (hprio : prio < 2 ^ 16) (hfrom : Svcb.fromText ptxt = .ok params)
+    (hpc : (0x2c : UInt8) ∉ ptxt) :
+    parseRecord cfg ((if https then 0x48 else 0x42) :: joinSep [wildText wild ++ domText isPrint dom,
+      tgtText isPrint tgt, decText ttl, locText lo, decText prio, ptxt])
+      = .ok (.svcb https dom wild tgt ttl lo prio params) := by
+  unfold tgtText
+  simp only []
+  rw [hd, ht]
+  generalize hsq : startsStar (Quote.bquote isPrint tgt) = sq
+  have hts := wild_no_sep isPrint sq tgt
+  have hf := fun t => fields_joinSep t (wildText wild ++ Quote.bquote isPrint dom)
+    (wildText sq ++ Quote.bquote isPrint tgt) [decText ttl, locText lo, decText prio, ptxt] (by simp)
+    (by mem_split; exact ⟨(wild_no_sep isPrint wild dom).1, hts.1, (decText_no_sep _).1,
+          (locText_no_sep _).1, (decText_no_sep _).1, hpc⟩)
+    (wild_no_sep isPrint wild dom).2
+  have htg : getdom (wildText sq ++ Quote.bquote isPrint tgt) = (tgt, sq) := by
+    apply getdom_wild
+    intro hfalse
+    apply noStar_of_startsStar
+    cases hst : startsStar tgt with
+    | false => rfl
+    | true => rw [hsk hst] at hsq; rw [← hsq] at hfalse; cases hfalse
+  cases https
+  · simp only [Bool.false_eq_true, if_false]
+    cl_simp
+    rw [hf]
+    fld_simp
+    rw [getloc_locText lo hlo]
+    simp (decide := true) only [getdom_wild isPrint dom wild hw, htg, getuint_decText 32 ttl _ httl,
+      getuint_decText 16 prio _ hprio, hfrom]
+    rfl
+  · simp only [if_true]
+    cl_simp
+    rw [hf]
+    fld_simp
+    rw [getloc_locText lo hlo]
+    simp (decide := true) only [getdom_wild isPrint dom wild hw, htg, getuint_decText 32 ttl _ httl,
+      getuint_decText 16 prio _ hprio, hfrom]
+    rfl
 
 /-- (T4) the range-point line: parse ∘ marshal. A point without location keeps no mask length. -/
 theorem pm_rangepoint_none (isPrint : Nat → Bool) (cfg : Cfg) (lmap : Bytes) (ip : IP) (maskLen : Nat)
@@ -854,5 +938,363 @@ theorem pm_rangepoint_some (isPrint : Nat → Bool) (cfg : Cfg) (lmap : Bytes) (
     have : ((maskLen + 160) % 256 + 96) % 256 = maskLen := by omega
     rw [this]
   · simp only [h4, Bool.false_eq_true, if_false]
+
+/-! ### whole files: preprocessing against compilation -/
+
+theorem compileLoop_cons (cfg : Cfg) (raw : Bytes) (rest : List Bytes) (kvs : List KV) (subs : List Subnet) :
+    compileLoop cfg (raw :: rest) kvs subs =
+      match filterLine raw with
+      | none => compileLoop cfg rest kvs subs
+      | some l =>
+        match parseRecord cfg l with
+        | .error _ => none
+        | .ok r => compileLoop cfg rest (kvs ++ recordKVs cfg r) (subs ++ (recordSubnet r).toList) := by
+  rfl
+
+theorem compileLoop_acc (cfg : Cfg) : ∀ (lines : List Bytes) (kvs : List KV) (subs : List Subnet),
+    compileLoop cfg lines kvs subs
+      = (compileLoop cfg lines [] []).map fun p => (kvs ++ p.1, subs ++ p.2) := by
+  intro lines
+  induction lines with
+  | nil => intro kvs subs; simp [compileLoop]
+  | cons raw rest ih =>
+    intro kvs subs
+    rw [compileLoop_cons, compileLoop_cons]
+    cases hf : filterLine raw with
+    | none => exact ih kvs subs
+    | some l =>
+      simp only []
+      cases hp : parseRecord cfg l with
+      | error e => rfl
+      | ok r =>
+        simp only []
+        rw [ih (kvs ++ recordKVs cfg r), ih ([] ++ recordKVs cfg r)]
+        cases compileLoop cfg rest [] [] <;> simp [Option.map, List.append_assoc]
+
+theorem compileLoop_append (cfg : Cfg) : ∀ (a b : List Bytes) (kvs : List KV) (subs : List Subnet),
+    compileLoop cfg (a ++ b) kvs subs
+      = (compileLoop cfg a kvs subs).bind fun p => compileLoop cfg b p.1 p.2 := by
+  intro a
+  induction a with
+  | nil => intro b kvs subs; simp [compileLoop]
+  | cons raw rest ih =>
+    intro b kvs subs
+    rw [List.cons_append, compileLoop_cons, compileLoop_cons]
+    cases hf : filterLine raw with
+    | none => exact ih b kvs subs
+    | some l =>
+      simp only []
+      cases hp : parseRecord cfg l with
+      | error e => rfl
+      | ok r => exact ih b _ _
+
+/-- what the line filter lets through: two bytes or more, not starting with a blank or `#` -/
+theorem filterLine_some {raw l : Bytes} (h : filterLine raw = some l) :
+    ∃ c x xs, l = c :: x :: xs ∧ c ≠ 0x20 ∧ c ≠ 0x23 := by
+  unfold filterLine at h
+  have hd := List.head?_dropWhile_not (fun (b : UInt8) => decide (b = 0x20)) raw
+  generalize raw.dropWhile (fun b => decide (b = 0x20)) = l0 at h hd
+  match l0, h, hd with
+  | [], h, _ => simp at h
+  | [_], h, _ => simp at h
+  | c :: x :: xs, h, hd =>
+    simp only [List.head?_cons] at hd
+    have h20 : c ≠ 0x20 := by simpa using hd
+    by_cases h23 : c = 0x23
+    · subst h23; simp at h
+    · refine ⟨c, x, xs, ?_, h20, h23⟩
+      simp only [List.length_cons] at h
+      split at h
+      · omega
+      · split at h
+        · rename_i heq; cases heq; exact absurd rfl h23
+        · exact (Option.some.inj h).symm
+
+theorem filterLine_cons {c x : UInt8} {xs : Bytes} (h20 : c ≠ 0x20) (h23 : c ≠ 0x23) :
+    filterLine (c :: x :: xs) = some (c :: x :: xs) := by
+  unfold filterLine
+  have hdw : (c :: x :: xs).dropWhile (fun b => decide (b = 0x20)) = c :: x :: xs := by
+    simp [List.dropWhile, h20]
+  rw [hdw]
+  simp only [List.length_cons]
+  split
+  · omega
+  · split
+    · rename_i heq; cases heq; exact absurd rfl h23
+    · rfl
+
+theorem filterLine_idem {raw l : Bytes} (h : filterLine raw = some l) : filterLine l = some l := by
+  obtain ⟨c, x, xs, rfl, h20, h23⟩ := filterLine_some h
+  exact filterLine_cons h20 h23
+
+macro "rs_case" h:ident : tactic => `(tactic|
+  (simp (decide := true) only [parseRecord, parseRangePoint, if_true, if_false, ite_true, ite_false,
+      ↓reduceIte, or_self, or_false, false_or, true_or, or_true] at $h:ident
+   repeat' split at $h:ident
+   all_goals first
+     | (cases $h:ident; rfl)
+     | cases $h:ident))
+
+/-- only a `%` line hands a subnet to the accumulator -/
+theorem recordSubnet_of_parse (cfg : Cfg) (t : UInt8) (rest : Bytes) (r : Record) (ht : t ≠ 0x25)
+    (h : parseRecord cfg (t :: rest) = .ok r) : recordSubnet r = none := by
+  by_cases h2 : t = 0x5a; · subst h2; rs_case h
+  by_cases h3 : t = 0x2e; · subst h3; rs_case h
+  by_cases h4 : t = 0x26; · subst h4; rs_case h
+  by_cases h5 : t = 0x2b; · subst h5; rs_case h
+  by_cases h6 : t = 0x3d; · subst h6; rs_case h
+  by_cases h7 : t = 0x40; · subst h7; rs_case h
+  by_cases h8 : t = 0x53; · subst h8; rs_case h
+  by_cases h9 : t = 0x43; · subst h9; rs_case h
+  by_cases h10 : t = 0x5e; · subst h10; rs_case h
+  by_cases h11 : t = 0x27; · subst h11; rs_case h
+  by_cases h12 : t = 0x3a; · subst h12; rs_case h
+  by_cases h13 : t = 0x4d; · subst h13; rs_case h
+  by_cases h14 : t = 0x38; · subst h14; rs_case h
+  by_cases h15 : t = 0x42; · subst h15; rs_case h
+  by_cases h16 : t = 0x48; · subst h16; rs_case h
+  by_cases h17 : t = 0x21; · subst h17; rs_case h
+  simp only [parseRecord, ht, h2, h3, h4, h5, h6, h7, h8, h9, h10, h11, h12, h13, h14, h15, h16, h17,
+    or_self, ↓reduceIte] at h
+  cases h
+
+/-- a `%` line decodes to a subnet record, which emits nothing itself under `NoRnetOutput` -/
+theorem net_of_parse (cfg : Cfg) (rest : Bytes) (r : Record) (hn : cfg.noRnetOutput = true)
+    (h : parseRecord cfg (0x25 :: rest) = .ok r) : recordKVs cfg r = [] := by
+  simp (decide := true) only [parseRecord, if_true, ↓reduceIte] at h
+  repeat' split at h
+  all_goals first
+    | (cases h; simp [recordKVs, hn])
+    | cases h
+
+theorem rangePointKV_point (m : Bytes) (p : Rearr.Point) :
+    rangePointKV m (Rearr.natToIP p.ip) (p.maskLen % 256) p.loc = Rearr.pointKV m p := by
+  unfold rangePointKV Rearr.pointKV
+  cases p.loc with
+  | none => rfl
+  | some l =>
+    have : UInt8.ofNat (p.maskLen % 256) = UInt8.ofNat p.maskLen := by
+      apply UInt8.toNat_inj.mp
+      simp
+    simp only [this]
+
+/-- what the text round trip of an accumulator point needs: a 2-byte map id and location (they
+come from `getlmap` / `getloc` through the rearranger) and an address text `ParseIP` reads back -/
+def PointOK (mp : Bytes × Rearr.Point) : Prop :=
+  mp.1.length = 2 ∧
+  parseIP (Svcb.ipString (Rearr.natToIP mp.2.ip)) = some (Rearr.natToIP mp.2.ip) ∧
+  (0x2c : UInt8) ∉ Svcb.ipString (Rearr.natToIP mp.2.ip) ∧ LocOK mp.2.loc
+
+/-- the `!` line of an accumulator point passes the line filter and compiles to the point's
+key/value -/
+theorem point_line (isPrint : Nat → Bool) (c0 cfg : Cfg) (mp : Bytes × Rearr.Point) (h : PointOK mp) :
+    ∃ t r, marshalText isPrint c0 (pointRecord mp) = .ok t ∧ filterLine t = some t ∧
+      parseRecord cfg t = .ok r ∧ recordKVs cfg r = [Rearr.pointKV mp.1 mp.2] ∧ recordSubnet r = none := by
+  obtain ⟨hl, hip, hc, hlo⟩ := h
+  have hm : mp.2.maskLen % 256 < 256 := Nat.mod_lt _ (by decide)
+  unfold pointRecord
+  cases hloc : mp.2.loc with
+  | none =>
+    have hp := pm_rangepoint_none isPrint cfg mp.1 (Rearr.natToIP mp.2.ip) (mp.2.maskLen % 256) hl hip hc
+    refine ⟨_, _, rfl, ?_, hp, ?_, rfl⟩
+    · match hm1 : mp.1, hl with
+      | [a, b], _ => exact filterLine_cons (by decide) (by decide)
+    · have := rangePointKV_point mp.1 mp.2
+      rw [hloc] at this
+      simp only [recordKVs, ← this]
+      rfl
+  | some l =>
+    have hl2 : l.length = 2 := hlo l hloc
+    have hp := pm_rangepoint_some isPrint cfg mp.1 (Rearr.natToIP mp.2.ip) (mp.2.maskLen % 256) l hl hip hc hm hl2
+    refine ⟨_, _, rfl, ?_, hp, ?_, rfl⟩
+    · match hm1 : mp.1, hl with
+      | [a, b], _ => exact filterLine_cons (by decide) (by decide)
+    · have := rangePointKV_point mp.1 mp.2
+      rw [hloc] at this
+      simp only [recordKVs, this]
+
+/-- the `!` lines of the accumulator compile, in order, to the points' keys and values -/
+theorem compileLoop_points (isPrint : Nat → Bool) (cfg : Cfg) :
+    ∀ (mps : List (Bytes × Rearr.Point)) (ls : List Bytes) (kvs : List KV),
+      (∀ mp ∈ mps, PointOK mp) → mps.mapM (pointLine isPrint) = some ls →
+      compileLoop cfg ls kvs [] = some (kvs ++ mps.map (fun mp => Rearr.pointKV mp.1 mp.2), []) := by
+  intro mps
+  induction mps with
+  | nil =>
+    intro ls kvs _ h
+    simp only [List.mapM_nil, pure, Option.some.injEq] at h
+    subst h
+    simp [compileLoop]
+  | cons mp rest ih =>
+    intro ls kvs hok h
+    obtain ⟨t, r, hmt, hfl, hpr, hkv, hsub⟩ := point_line isPrint {} cfg mp (hok mp (by simp))
+    have hpl : pointLine isPrint mp = some t := by simp only [pointLine, hmt]
+    rw [List.mapM_cons, hpl] at h
+    cases hrest : rest.mapM (pointLine isPrint) with
+    | none => rw [hrest] at h; simp [bind, Option.bind] at h
+    | some ls' =>
+      rw [hrest] at h
+      simp only [bind, Option.bind, pure, Option.some.injEq] at h
+      subst h
+      rw [compileLoop_cons]
+      simp only [hfl, hpr, hkv, hsub, Option.toList_none, List.append_nil]
+      rw [ih ls' _ (fun mp' hm' => hok mp' (by simp [hm'])) hrest]
+      simp [List.append_assoc]
+
+theorem foldlM_points_sim {α β : Type} (R : Bytes → Option (List Rearr.Point)) (kf : Bytes → Rearr.Point → α)
+    (pf : Bytes → Rearr.Point → β) (F : β → α) (hF : ∀ m p, F (pf m p) = kf m p) :
+    ∀ (ms : List Bytes) (acc : List β),
+      ms.foldlM (fun acc m => match R m with
+        | none => none
+        | some pts => some (acc ++ pts.map (kf m))) (acc.map F)
+      = (ms.foldlM (fun acc m => match R m with
+        | none => none
+        | some pts => some (acc ++ pts.map (pf m))) acc).map fun (mps : List β) => mps.map F := by
+  intro ms
+  induction ms with
+  | nil => intro acc; rfl
+  | cons m rest ih =>
+    intro acc
+    simp only [List.foldlM_cons]
+    cases R m with
+    | none => rfl
+    | some pts =>
+      simp only [bind, Option.bind]
+      have := ih (acc ++ pts.map (pf m))
+      simp only [List.map_append, List.map_map] at this
+      have e : (F ∘ pf m) = kf m := funext fun p => hF m p
+      rw [e] at this
+      exact this
+
+/-- `SubnetRanger.MarshalMap` and the accumulator's text scanner walk the same points -/
+theorem rangePointKVs_eq (subs : List Subnet) :
+    Rearr.rangePointKVs subs
+      = (rangePoints subs).map fun (mps : List (Bytes × Rearr.Point)) =>
+          mps.map fun mp => Rearr.pointKV mp.1 mp.2 := by
+  unfold Rearr.rangePointKVs rangePoints
+  exact foldlM_points_sim _ (fun m => Rearr.pointKV m) (fun m p => (m, p))
+    (fun mp => Rearr.pointKV mp.1 mp.2) (fun _ _ => rfl) _ []
+
+/-- the scan loop of the preprocessor against the compiler's loop over the same lines: the lines it
+writes (`new`) compile to the keys and values of the original lines and hand nothing to the
+accumulator; the subnets it collects are the ones the compiler collects. `hz`: the record of every
+`Z` line is well-formed (so that its normalised text decodes to it again). -/
+theorem preprocessLoop_sim (isPrint : Nat → Bool) (cfg : Cfg) (hn : cfg.noRnetOutput = true) :
+    ∀ (lines out : List Bytes) (subs : List Subnet) (out' : List Bytes) (subs' : List Subnet),
+      (∀ raw ∈ lines, ∀ l r, filterLine raw = some l → l.head? = some 0x5a → parseRecord cfg l = .ok r →
+        WF isPrint cfg r) →
+      preprocessLoop isPrint cfg lines out subs = .ok (out', subs') →
+      ∃ new, out' = out ++ new ∧
+        match compileLoop cfg lines [] [] with
+        | none => compileLoop cfg new [] [] = none
+        | some (k, s) => subs' = subs ++ s ∧ compileLoop cfg new [] [] = some (k, []) := by
+  intro lines
+  induction lines with
+  | nil =>
+    intro out subs out' subs' _ h
+    simp only [preprocessLoop, Except.ok.injEq, Prod.mk.injEq] at h
+    exact ⟨[], by simp [h.1], by simp [compileLoop, h.2]⟩
+  | cons raw rest ih =>
+    intro out subs out' subs' hz h
+    have hz' : ∀ raw' ∈ rest, ∀ l r, filterLine raw' = some l → l.head? = some 0x5a →
+        parseRecord cfg l = .ok r → WF isPrint cfg r := fun raw' hm => hz raw' (by simp [hm])
+    unfold preprocessLoop at h
+    rw [compileLoop_cons]
+    cases hf : filterLine raw with
+    | none =>
+      rw [hf] at h
+      exact ih out subs out' subs' hz' h
+    | some l =>
+      rw [hf] at h
+      simp only [] at h ⊢
+      obtain ⟨c, x, xs, rfl, h20, h23⟩ := filterLine_some hf
+      have hfl : filterLine (c :: x :: xs) = some (c :: x :: xs) := filterLine_cons h20 h23
+      by_cases h25 : c = 0x25
+      · -- `%`: decoded into the accumulator, not written
+        subst h25
+        simp only [List.head?_cons, if_true] at h
+        cases hp : parseRecord cfg (0x25 :: x :: xs) with
+        | error e => rw [hp] at h; cases h
+        | ok r =>
+          rw [hp] at h
+          simp only [hn, if_true] at h
+          obtain ⟨new, hout, hcmp⟩ := ih out _ out' subs' hz' h
+          refine ⟨new, hout, ?_⟩
+          simp only [net_of_parse cfg _ r hn hp, List.append_nil]
+          rw [compileLoop_acc]
+          cases hc : compileLoop cfg rest [] [] with
+          | none => rw [hc] at hcmp; simpa [Option.map] using hcmp
+          | some ks =>
+            obtain ⟨k, s⟩ := ks
+            rw [hc] at hcmp
+            simp only [Option.map, List.nil_append]
+            exact ⟨by rw [hcmp.1, List.append_assoc], hcmp.2⟩
+      · have hne : ((c :: x :: xs).head? = some 0x25) = False := by simp [h25]
+        simp only [hne, if_false] at h
+        by_cases h5a : c = 0x5a
+        · -- `Z`: replaced by its normalised text
+          subst h5a
+          simp only [List.head?_cons, if_true] at h
+          cases hp : parseRecord cfg (0x5a :: x :: xs) with
+          | error e => rw [hp] at h; cases h
+          | ok r =>
+            rw [hp] at h
+            simp only [] at h
+            cases hm : marshalText isPrint cfg r with
+            | error e => rw [hm] at h; cases h
+            | ok t =>
+              rw [hm] at h
+              simp only [] at h
+              obtain ⟨new, hout, hcmp⟩ := ih _ subs out' subs' hz' h
+              have hwf := hz raw (by simp) _ r hf rfl hp
+              have hsub : recordSubnet r = none := recordSubnet_of_parse cfg _ _ r (by decide) hp
+              -- the text decodes to the same record
+              have ht : filterLine t = some t ∧ parseRecord cfg t = .ok r := by
+                cases r with
+                | soa dom ns adm ser ref ret exp min ttl lo =>
+                  have := pm_soa isPrint cfg dom ns adm ser ref ret exp min ttl lo hwf
+                  simp only [marshalText, marshalFields, Except.ok.injEq] at hm
+                  subst hm
+                  refine ⟨?_, this⟩
+                  simp only [joinSep, sep, List.append_assoc, List.cons_append, List.nil_append]
+                  cases hd : domText isPrint dom with
+                  | nil => exact filterLine_cons (by decide) (by decide)
+                  | cons a as => exact filterLine_cons (by decide) (by decide)
+                | _ =>
+                  exfalso
+                  simp (decide := true) only [parseRecord, if_true, if_false, ↓reduceIte] at hp
+                  repeat' split at hp
+                  all_goals cases hp
+              refine ⟨t :: new, by rw [hout]; simp, ?_⟩
+              simp only [hsub, Option.toList_none, List.append_nil, List.nil_append]
+              rw [compileLoop_acc]
+              rw [compileLoop_cons cfg t new]
+              simp only [ht.1, ht.2, hsub, Option.toList_none, List.append_nil, List.nil_append]
+              rw [compileLoop_acc cfg new]
+              cases hc : compileLoop cfg rest [] [] with
+              | none => rw [hc] at hcmp; simp [Option.map, hcmp]
+              | some ks =>
+                obtain ⟨k, s⟩ := ks
+                rw [hc] at hcmp
+                simp [Option.map, hcmp.1, hcmp.2]
+        · -- any other line: copied
+          have hne2 : ((c :: x :: xs).head? = some 0x5a) = False := by simp [h5a]
+          simp only [hne2, if_false] at h
+          obtain ⟨new, hout, hcmp⟩ := ih _ subs out' subs' hz' h
+          refine ⟨(c :: x :: xs) :: new, by rw [hout]; simp, ?_⟩
+          rw [compileLoop_cons cfg _ new]
+          simp only [hfl]
+          cases hp : parseRecord cfg (c :: x :: xs) with
+          | error e => simp
+          | ok r =>
+            have hsub : recordSubnet r = none := recordSubnet_of_parse cfg _ _ r h25 hp
+            simp only [hsub, Option.toList_none, List.append_nil, List.nil_append]
+            rw [compileLoop_acc, compileLoop_acc cfg new]
+            cases hc : compileLoop cfg rest [] [] with
+            | none => rw [hc] at hcmp; simp [Option.map, hcmp]
+            | some ks =>
+              obtain ⟨k, s⟩ := ks
+              rw [hc] at hcmp
+              simp [Option.map, hcmp.1, hcmp.2]
 
 end DnsVerif.MarshalText
